@@ -23,7 +23,7 @@ NT = 4           # epigraph variables
 def _ro_run(events, how='eco'):
     """Execute ro events.  Returns (status tuple in min-form, nops)."""
     R = C.R
-    ro = R["ro"]
+    rso, ro = R['rso'], R['ro']
     m = ro.Model()
     t = m.dvar(NT)
     z = m.rvar(2)
@@ -31,9 +31,25 @@ def _ro_run(events, how='eco'):
     nops = 4
     sign = 1
     has_obj = False
+    y = None
+    if any(ev['op'] == 'pw' for ev in events):
+        y = m.ldr(NT)
+        y.adapt(z)
+        nops += 2
     for ev in events:
         op = ev['op']
-        if op == 'forall':          # constraint with its own set; add=False -> decoy
+        if op == 'pw':              # piecewise constraint with its own set (forall on the PWConstr)
+            i = ev['i']
+            sets = C.mkset(z, *ev['set'])
+            if 'set2' in ev:
+                sets = sets + C.mkset(z, *ev['set2'])
+            m.st((y[i] >= z @ CS[i]).forall(sets))
+            sets = C.mkset(z, *ev['set'])
+            if 'set2' in ev:
+                sets = sets + C.mkset(z, *ev['set2'])
+            m.st((rso.maxof(0.5 * (z @ CS[(i + 1) % NT]) + OFF, y[i] + OFF, 0.5) <= t[i]).forall(sets))
+            nops += 4
+        elif op == 'forall':          # constraint with its own set; add=False -> decoy
             i = ev['i']
             con = (t[i] >= z @ CS[i] + OFF).forall(C.mkset(z, *ev['set']))
             nops += 2
@@ -89,13 +105,23 @@ def _dro_run(events, how='eco'):
     t = m.dvar(NT)
     z = m.rvar(2)
     fs = {1: m.ambiguity(), 2: m.ambiguity()}
+    yv = None
+    if any(ev['op'] == 'pw' for ev in events):
+        yv = m.dvar(NT)
+        yv.adapt(z)
     m.st(t >= 0)
     nops = 6
     sign = 1
     has_obj = False
     for ev in events:
         op = ev['op']
-        if op == 'supp':
+        if op == 'pw':              # piecewise constraint, own ambiguity set; the middle piece has no explicit random
+            i = ev['i']             # variable but contains an affinely adaptive decision
+            f = fs[ev['F']]
+            m.st((yv[i] >= z @ CS[i]).forall(f))
+            m.st((rso.maxof(0.5 * (z @ CS[(i + 1) % NT]) + OFF, yv[i] + OFF, 0.5) <= t[i]).forall(f))
+            nops += 4
+        elif op == 'supp':
             f = fs[ev['F']]
             tgt = f if ev['scen'] == 'all' else f[ev['scen']]
             cons = C.mkset(z, *ev['set'])
@@ -188,8 +214,9 @@ def _ref(fe, events):
 
 def _canon_key(ev):
     order = {'supp': 0, 'expt': 1, 'prob': 2, 'defobj': 3, 'forall': 4, 'forall2': 4, 'defuse': 5, 'rc': 5,
-             'ec': 6, 'el': 6}
-    return (order.get(ev['op'], 9), str(ev.get('scen')), ev.get('i', -1))
+             'ec': 6, 'el': 6, 'pw': 7}
+    # whole-level definitions first: an event-level definition refines, a later whole-level one would override
+    return (order.get(ev['op'], 9), 0 if ev.get('scen') in (None, 'all') else 1, str(ev.get('scen')), ev.get('i', -1))
 
 
 def _merge(evs_b, evs_a):
@@ -207,6 +234,8 @@ def _merge(evs_b, evs_a):
             e = dict(e)
             if e['op'] == 'forall':
                 e['op'] = 'forall2'
+                e['set2'] = s2
+            elif e['op'] == 'pw' and 'set' in e:
                 e['set2'] = s2
             elif e['op'] == 'defobj' and 'set' in e:
                 e['set2'] = s2
@@ -262,7 +291,7 @@ def run(case):
     trans = nops
     for g in sorted(groups, key=str):
         evs = sorted(groups[g], key=_canon_key)
-        if not any(e['op'] in ('forall', 'forall2', 'defuse', 'rc', 'ec', 'el', 'defobj') and e.get('add', True)
+        if not any(e['op'] in ('forall', 'forall2', 'defuse', 'rc', 'ec', 'el', 'defobj', 'pw') and e.get('add', True)
                    for e in evs):
             continue
         st, n = _ref(fe, evs)
